@@ -274,6 +274,8 @@ struct FileContext {
     paused: bool,
     /// we did send lifecycles with that lcs_w_refresh_idx
     last_lcs_w_refresh_index: u32,
+    /// the lifecycles sent (id -> ecu, start_time). Used to inform about lifecycles that got removed (merged) later on
+    sent_lcs: BTreeMap<u32, (u32, u64)>,
 
     /// stats like ecu, apid, ctid:
     eac_stats: EacStats,
@@ -491,6 +493,7 @@ impl FileContext {
             streams: Vec::new(),
             paused,
             last_lcs_w_refresh_index: 0,
+            sent_lcs: BTreeMap::new(),
             eac_stats,
             eac_next_send_time: std::time::Instant::now() + std::time::Duration::from_secs(2), // after 2 secs the first update
             eac_last_nr_msgs: 0,
@@ -1809,6 +1812,8 @@ fn process_file_context<T: Read + Write>(
                         std::cmp::max(new_lcs_w_refresh_index, lc.lcs_w_refresh_idx);
                     if !lc.only_control_requests() {
                         // send this one
+                        fc.sent_lcs
+                            .insert(lc.id(), (lc.ecu.as_u32le(), lc.resume_start_time()));
                         lcs.push(remote_types::BinLifecycle {
                             id: lc.id(),
                             ecu: lc.ecu.as_u32le(),
@@ -1826,6 +1831,23 @@ fn process_file_context<T: Read + Write>(
                 }
             }
             fc.last_lcs_w_refresh_index = new_lcs_w_refresh_index;
+            // a lifecycle that was sent and got merged into another one later is not in the map any longer.
+            // We do inform about it with nr_msgs 0 (not valid anymore).
+            fc.sent_lcs.retain(|id, (ecu, start_time)| {
+                let is_valid = lc_map.contains_key(id);
+                if !is_valid {
+                    lcs.push(remote_types::BinLifecycle {
+                        id: *id,
+                        ecu: *ecu,
+                        nr_msgs: 0,
+                        start_time: *start_time,
+                        resume_time: None,
+                        end_time: *start_time,
+                        sw_version: None,
+                    });
+                }
+                is_valid
+            });
             if !lcs.is_empty() {
                 // we do send them sorted (even in case only updates are sent)
                 lcs.sort_unstable_by(|a, b| a.start_time.cmp(&b.start_time));
